@@ -61,9 +61,6 @@ def run(ctx):
     M, P = refs_cases.evaluate(ctx, ID, obs)
     for idx in P:
         o = obs[idx]
-        if o["kind"] == "c08-xattr-clone":
-            ctx.violation("C08:xattr-clone-unregistered", "clone of an xattr fid is not told about renames", slim(o))
-            continue
         ctx.violation("%s:lifecycle" % ID, "observed behaviour violates %s (File closed twice / used after Close / never closed / path incoherent / "
                       "fenced request reached the backend / Handle did not return)" % ID, slim(o))
     nm = 0
